@@ -67,7 +67,7 @@ pub fn predicate(name: &str, c: &crate::case::Case) -> bool {
         // coordinate exactly (coplanar), or two are closer than 1e-3 of the set's extent (a
         // sphere through both and any far point is ill conditioned)
         "c20-degenerate-support" => {
-            if c.family == "L" {
+            if c.family.starts_with('L') {
                 return true;
             }
             let pts: Vec<[f64; 3]> = c.gens.iter().take(60).cloned().collect();
